@@ -6,6 +6,7 @@ import (
 	"fmt"
 	"io"
 	"net"
+	"slices"
 	"time"
 
 	"github.com/quic-go/quic-go"
@@ -295,17 +296,19 @@ func (s *Server) handleRPCFreeSectors(stream net.Conn) error {
 
 	oldSubtreeHashes, oldLeafHashes := rhp4.BuildFreeSectorsProof(state.Roots, req.Indices)
 
-	// modify the sector roots
+	// modify a copy of the sector roots; the contractor's roots must not
+	// change unless the revision is committed
 	//
 	// NOTE: must match the behavior of BuildFreeSectorsProof
+	roots := slices.Clone(state.Roots)
 	for i, n := range req.Indices {
-		state.Roots[n] = state.Roots[len(state.Roots)-i-1]
+		roots[n] = roots[len(roots)-i-1]
 	}
-	state.Roots = state.Roots[:len(state.Roots)-len(req.Indices)]
+	roots = roots[:len(roots)-len(req.Indices)]
 	resp := rhp4.RPCFreeSectorsResponse{
 		OldSubtreeHashes: oldSubtreeHashes,
 		OldLeafHashes:    oldLeafHashes,
-		NewMerkleRoot:    rhp4.MetaRoot(state.Roots),
+		NewMerkleRoot:    rhp4.MetaRoot(roots),
 	}
 	if err := rhp4.WriteResponse(stream, &resp); err != nil {
 		return fmt.Errorf("failed to write response: %w", err)
@@ -328,7 +331,7 @@ func (s *Server) handleRPCFreeSectors(stream net.Conn) error {
 	revision.RenterSignature = renterSigResponse.RenterSignature
 	revision.HostSignature = s.hostKey.SignHash(sigHash)
 
-	err = s.contractor.ReviseV2Contract(req.ContractID, revision, state.Roots, usage)
+	err = s.contractor.ReviseV2Contract(req.ContractID, revision, roots, usage)
 	if err != nil {
 		return fmt.Errorf("failed to revise contract: %w", err)
 	}
